@@ -124,6 +124,8 @@ class Model:
                 for st in mod.classes[cq].body if cq in mod.classes else []:
                     if isinstance(st, ast.Assign) and any(isinstance(t, ast.Name) and t.id == attr for t in st.targets):
                         return I.eval(st.value)
+                    if isinstance(st, ast.AnnAssign) and isinstance(st.target, ast.Name) and st.target.id == attr and st.value is not None:
+                        return I.eval(st.value)
             return ("attr", v.term(), attr)
         if isinstance(v, ClassRef):
             m = I.find_method((v.mod, v.qualname), attr)
@@ -134,6 +136,8 @@ class Model:
                 return FuncRef(m.mod, m.node, m.qualname)
             for st in v.mod.classes[v.qualname].body:
                 if isinstance(st, ast.Assign) and any(isinstance(t, ast.Name) and t.id == attr for t in st.targets):
+                    return I.eval(st.value)
+                if isinstance(st, ast.AnnAssign) and isinstance(st.target, ast.Name) and st.target.id == attr and st.value is not None:
                     return I.eval(st.value)
             return ("attr", ("class", v.qualname), attr)
         if isinstance(v, EnumRef):
